@@ -8,6 +8,7 @@ open OpsBind (dStr dOptStr dBool dNat dList dPair dCfg field jErr)
 
 def dShape (j : Json) : Except String JShape :=
   match j with
+  | .str "null" => .ok .null
   | .str "scalar" => .ok .scalar
   | .str "array" => .ok .array
   | _ => match j.getObjVal? "object" with
@@ -17,6 +18,7 @@ def dShape (j : Json) : Except String JShape :=
 def dDVar (j : Json) : Except String DVar := do
   pure { name := ← dStr (field j "name"), localName := ← dStr (field j "local_name"),
          wrapper := ← dOptStr (field j "wrapper"), isList := ← dBool (field j "is_list"),
+         listElement := ← dBool (field j "list_element"),
          init := ← dBool (field j "init") }
 
 def dCand (j : Json) : Except String Cand := do
@@ -32,10 +34,10 @@ def run (op : String) (a : Json) : Option (Except String Json) :=
       let data ← dList (dPair dStr dShape) (field a "data")
       let dk ← dList dStr (field a "derived_keys")
       -- the value bound to a var is represented by the key it came from
-      pure <| match bindDataclass (fun _ k _ => .ok k) (dCfg (field a "config")) dk vars data with
+      pure <| match bindDataclass (fun _ k v => .ok (if v.isNull then none else some k)) (dCfg (field a "config")) dk vars data with
         | .ok .derived => ok (jObj [("derived", jBool true), ("params", jList id [])])
         | .ok (.plain ps) => ok (jObj [("derived", jBool false),
-            ("params", jList (fun (kv : Str × Str) => Json.arr #[jStr kv.1, jStr kv.2]) ps)])
+            ("params", jList (fun (kv : Str × Option Str) => Json.arr #[jStr kv.1, jOpt jStr kv.2]) ps)])
         | .error e => jErr e
   | "dict.best" => some do
       let keys ← dList dStr (field a "keys")
